@@ -578,6 +578,18 @@ func (g *gen) securityShapes() {
 		g.d.Schemes = append(g.d.Schemes, sc)
 		return sc
 	}
+	if g.o.Index%5 == 2 {
+		// two schemes whose names differ in one character that is not an identifier character: they stay two schemes everywhere
+		// (generated code, documents), each method under its own
+		ak := &Scheme{Name: "partner key", Kind: "apikey"}
+		jw := &Scheme{Name: "partner_key", Kind: "jwt", Scopes: []string{"api:read", "api:write"}}
+		g.d.Schemes = append(g.d.Schemes, ak, jw)
+		for _, sc := range []*Scheme{ak, jw} {
+			m := g.plainMethod(s, "pk_"+sc.Kind)
+			m.Security = []Req{{Schemes: []string{sc.Name}}}
+			g.credentials(m, m.Security)
+		}
+	}
 	switch g.o.Index % 6 {
 	case 0, 1:
 		// an explicit request body that does not list the credential: the credential still travels in the
